@@ -7,7 +7,10 @@ package interp
 // string.  The needle must be concrete; a one-byte needle is decided byte
 // by byte, a longer one position by position.
 
-import "go/types"
+import (
+	"go/token"
+	"go/types"
+)
 
 // firstMatch returns the first (or last) position at which the concrete
 // needle matches the symbolic subject, deciding each candidate position.
@@ -96,3 +99,89 @@ func init() {
 }
 
 var _ = types.Bool
+
+// ---- predicates over runes: strings.IndexFunc & co with an interpreted or
+// library predicate; unicode.Is* on a symbolic ASCII rune ----
+
+func init() {
+	// symbolic fallbacks of the unicode predicates (the native bridge, registered
+	// later, answers for concrete runes): exact for ASCII, the only runes a
+	// symbolic string of this engine holds; other values end the path
+	asciiPred := func(name string, f func(r value) value) {
+		reg(name, func(i *interpreter, fr *frame, args []value) value {
+			r := args[0]
+			t32 := types.Typ[types.Int32]
+			if !i.condBool(binop(token.LSS, t32, r, int32(0x80)), "asciirune") || !i.condBool(binop(token.GEQ, t32, r, int32(0)), "asciirune") {
+				unsupportedf("%s of a symbolic non-ASCII rune", name)
+			}
+			return f(r)
+		})
+	}
+	t32 := types.Typ[types.Int32]
+	between := func(r value, lo, hi int32) value {
+		return binop(token.AND, types.Typ[types.Bool], binop(token.GEQ, t32, r, lo), binop(token.LEQ, t32, r, hi))
+	}
+	or := func(a, b value) value { return binop(token.OR, types.Typ[types.Bool], a, b) }
+	asciiPred("unicode.IsLower", func(r value) value { return between(r, 'a', 'z') })
+	asciiPred("unicode.IsUpper", func(r value) value { return between(r, 'A', 'Z') })
+	asciiPred("unicode.IsDigit", func(r value) value { return between(r, '0', '9') })
+	asciiPred("unicode.IsLetter", func(r value) value { return or(between(r, 'a', 'z'), between(r, 'A', 'Z')) })
+
+	runesOf := func(i *interpreter, name string, sv value) (runes []value, offs []int) {
+		if s, ok := sv.(string); ok {
+			for off, r := range s {
+				runes = append(runes, r)
+				offs = append(offs, off)
+			}
+			return
+		}
+		for k, b := range strBytes(sv) {
+			// a symbolic byte is a rune of its own only below 0x80
+			if sb, isSym := b.(symv); isSym {
+				if !i.condBool(binop(token.LSS, types.Typ[types.Uint8], sb, uint8(0x80)), "asciibyte") {
+					unsupportedf("%s over a symbolic non-ASCII byte", name)
+				}
+				runes = append(runes, symConvScalar(types.Int32, sb))
+			} else {
+				c := b.(uint8)
+				if c >= 0x80 {
+					unsupportedf("%s over a partly symbolic non-ASCII string", name)
+				}
+				runes = append(runes, int32(c))
+			}
+			offs = append(offs, k)
+		}
+		return
+	}
+	find := func(name string, last, contains bool) intrinsicFn {
+		return func(i *interpreter, fr *frame, args []value) value {
+			runes, offs := runesOf(i, name, args[0])
+			res := -1
+			try := func(k int) bool {
+				return i.condBool(call(i, fr, token.NoPos, args[1], []value{runes[k]}), "runepred")
+			}
+			if last {
+				for k := len(runes) - 1; k >= 0; k-- {
+					if try(k) {
+						res = offs[k]
+						break
+					}
+				}
+			} else {
+				for k := range runes {
+					if try(k) {
+						res = offs[k]
+						break
+					}
+				}
+			}
+			if contains {
+				return res >= 0
+			}
+			return res
+		}
+	}
+	reg("strings.IndexFunc", find("strings.IndexFunc", false, false))
+	reg("strings.LastIndexFunc", find("strings.LastIndexFunc", true, false))
+	reg("strings.ContainsFunc", find("strings.ContainsFunc", false, true))
+}
